@@ -102,7 +102,7 @@ func (c04) Generate(r *core.Rng, run int, tier string) *core.History {
 		h.Events = append(h.Events, core.Event{Ev: "input", Tag: "base", Stmts: in})
 		if i > 0 && fr.Bool(.12) {
 			// cancellation while a memoized call is capturing output: the half-evaluated call must not be stored
-			tpl := core.Pick(fr, []failTpl{deadlineTemplates[2], deadlineTemplates[3], deadlineTemplates[0]})
+			tpl := core.Pick(fr, []failTpl{deadlineTemplates[2], deadlineTemplates[3], deadlineTemplates[0], deadlineTemplates[6], deadlineTemplates[6]})
 			text := tpl.text(fr, nil)
 			res := bg.Try(text, nil)
 			T := max(res.Ticks, 2)
